@@ -51,6 +51,10 @@ func (n *EvalFunctionNode) Type(scope ReadOnlyScope) (ast.ValueType, error) {
 
 	domain := Domain{}
 	for i, argEvaluator := range n.argsEvaluators {
+		if i >= len(domain) {
+			// too many arguments, reported below
+			break
+		}
 		t, err := argEvaluator.Type(scope)
 		if err != nil {
 			return ast.InvalidType, fmt.Errorf("Failed to handle %v argument: %v", i+1, err)
